@@ -625,3 +625,45 @@ def rule_T_SPACE(ctx, T, models=("enum", "lex")):
                 v = sp.get(fld)
                 ok = isinstance(v, str) and all(ch.isspace() for ch in v)
                 ctx.ob("T-SPACE", "lexical %s space.%s %r is whitespace" % (name, fld, v), ok, "contains a non-whitespace character")
+
+
+# ----------------------------------------------------------------------------
+# T-CROSS: a keyword shared by two vocabularies names the same constructor in both
+CROSS_FAMILIES = ("atom.prefix_", "compound.connecter_", "statement.copula_", "sentence.punctuation_", "sentence.stamp_")
+
+
+def _flat(d, pre=""):
+    out = {}
+    if isinstance(d, dict):
+        for k, v in d.items():
+            out.update(_flat(v, pre + "." + k if pre else k))
+    elif isinstance(d, (list, tuple)):
+        for i, v in enumerate(d):
+            out.update(_flat(v, "%s.%d" % (pre, i)))
+    elif isinstance(d, str):
+        out[pre] = d
+    return out
+
+
+def rule_T_CROSS(ctx, T):
+    """sibling agreement between the enum format tables: within one role family (atom prefixes, compound connecters, copulas, punctuations,
+    stamp kinds) a keyword string that occurs in two formats stands under the same field in both -- ASCII `/` and LaTeX `/` are the same
+    connecter (seed c10-t: the two image connecters of the LaTeX table exchanged; LaTeX stays self-consistent, so only the agreement with
+    its sibling tables shows it)"""
+    ctx.rule("T-CROSS", "within a role family (atom prefixes, connecters, copulas, punctuations, stamp kinds) a keyword shared by two enum format "
+             "tables is the keyword of the same constructor in both")
+    flat = {n: _flat(t) for n, t in sorted(T.enum.items())}
+    names = sorted(flat)
+    n = 0
+    for fam in CROSS_FAMILIES:
+        for i, a in enumerate(names):
+            for b in names[i + 1:]:
+                inv = {}
+                for k, v in flat[b].items():
+                    if k.startswith(fam) and v.strip():
+                        inv.setdefault(v, []).append(k)
+                for k, v in sorted(flat[a].items()):
+                    if k.startswith(fam) and v.strip() and v in inv:
+                        n += 1
+                        ctx.ob("T-CROSS", "%s %s = %s %r" % (a, k, b, v), k in inv[v], "%s has %r under %s" % (b, v, inv[v]))
+    ctx.floor("keywords shared between enum format tables", n, 1)
